@@ -193,7 +193,8 @@ class DensityMatrix(StateRepresentationBase):
             m, norm = projectors[outcome], probs[outcome] / np.sum(probs)
 
             # this assumes that the projector, m, has the properties: m = sqrt(m) and m = m.dag()
-            self._data = (m @ self._data @ np.transpose(np.conjugate(m))) / norm
+            if np.sum(probs) > 0:  # a completely lost (zero) state stays zero
+                self._data = (m @ self._data @ np.transpose(np.conjugate(m))) / norm
 
         else:
             raise ValueError(
